@@ -89,6 +89,43 @@ def run(chk):
                 chk.fail("accumulating blocks %s into an empty GMMStats with += differs from whole-set statistics" % (parts3,), dict(ctx, composition=list(parts3)))
             if [dump(t) for t in sts] != keep:
                 chk.fail("accumulating into an empty GMMStats with += changed the operands (blocks %s)" % (parts3,), dict(ctx, composition=list(parts3)))
+            # a container that was re-initialised (reset / init_fields / resize) accumulates like a fresh one
+            for how in ("reset", "init_fields", "resize"):
+                accr = GMMStats(C, D) if how != "resize" else GMMStats(C + 1, D + 2)
+                if how == "reset":
+                    accr += sts[0]
+                    accr.reset()
+                elif how == "init_fields":
+                    accr.init_fields()
+                else:
+                    accr.resize(C, D)
+                for t in sts:
+                    accr += t
+                chk.count(1, key=("iadd-after", how))
+                if not stats_close(accr, whole):
+                    chk.fail("a GMMStats container re-initialised with %s() and then filled with += differs from the whole-set statistics" % how,
+                             dict(ctx, composition=list(parts3), reinitialised_with=how, got=dump(accr), want=dump(whole)))
+            # statistics of Dask blocks (their fields are lazy Dask arrays) add up with + and += like NumPy ones
+            if len(parts3) >= 2:
+                dsts = [m.acc_stats(da.from_array(np.asarray(b), chunks=(len(b), D))) for b in gen.split_rows(X, parts3)]
+                try:
+                    tot = dsts[0]
+                    for t in dsts[1:]:
+                        tot = tot + t
+                    tot2 = copy.deepcopy(dsts[0])
+                    for t in dsts[1:]:
+                        tot2 += t
+                    okd = True
+                    for cand in (tot, tot2):
+                        cn = GMMStats(C, D)
+                        cn.t, cn.n, cn.sum_px, cn.sum_pxx = int(cand.t), np.asarray(cand.n), np.asarray(cand.sum_px), np.asarray(cand.sum_pxx)
+                        cn.log_likelihood = float(cand.log_likelihood)
+                        okd = okd and stats_close(cn, whole)
+                    chk.count(1, key=("dask-backed +", len(parts3)))
+                    if not okd:
+                        chk.fail("statistics of Dask blocks added with + / += differ from the whole-set statistics", dict(ctx, composition=list(parts3)))
+                except Exception as e:
+                    chk.fail("adding statistics of Dask blocks with + / += raises %r" % (e,), dict(ctx, composition=list(parts3)))
             # the reduction the M-step wrapper performs over k per-chunk statistics (k = 1..5, odd and even)
             from bob.learn.em import gmm as gmm_module
             for k in range(1, min(N, 5) + 1):
